@@ -190,11 +190,30 @@ def nofollow_rule(P, rep, rid):
         rep.check(okw, rid, 'open_noatime passes its flags to open()', w.file, '%d open calls' % len(ops_), function='open_noatime', construct='flags pass-through')
         wrappers['open_noatime'] = 1
     n = 0
+    sites = []
     for fn in NOFOLLOW_OPENERS:
         f = P.fn(fn)
         rep.analysed(f)
         for c in f.calls({'open'} | set(wrappers)):
-            mb = must_bits(f, c.ops[1])
+            sites.append((fn, f, c, must_bits(f, c.ops[1])))
+        # open calls moved into a static helper that receives the flags: the parameter is resolved at the helper's call sites
+        for hc in f.calls():
+            h = P.functions.get(hc.callee_full) if hc.callee_full else None
+            if h is None or h.decl or not h.internal or base(h.name) in wrappers or base(h.name) in NOFOLLOW_OPENERS:
+                continue
+            for c in h.calls({'open'} | set(wrappers)):
+                mb = must_bits(h, c.ops[1])
+                for k in range(len(h.args)):
+                    if mb & (ARGBIT << k) and k < len(hc.ops):
+                        mb |= must_bits(f, hc.ops[k]) & (ARGBIT - 1)
+                sites.append((fn, h, c, mb))
+                rep.analysed(h)
+    seen_sites = set()
+    for fn, f, c, mb in sites:
+        if True:
+            if (f.name, c.id, mb & O_NOFOLLOW_BIT) in seen_sites:
+                continue
+            seen_sites.add((f.name, c.id, mb & O_NOFOLLOW_BIT))
             n += 1
             rep.check(bool(mb & O_NOFOLLOW_BIT), rid, '%s: %s(%s, ...) has O_NOFOLLOW' % (fn, c.callee, f.expr(c.ops[0])[:40]), c.loc(),
                       'bits set on every path: %s' % oct(mb & (ARGBIT - 1)) if mb & O_NOFOLLOW_BIT else 'the flags (%s; certain bits %s) lack O_NOFOLLOW: a symbolic link at that path is followed and a file outside the array is opened%s' % (f.expr(c.ops[1])[:60], oct(mb & (ARGBIT - 1)), ' for writing' if mb & 0o1103 else ''),
@@ -232,12 +251,17 @@ def touch_disk_nsec_rule(P, rep, rid):
 
     class Called(Exception):
         pass
+
+    class Skipped(Exception):
+        pass
     bad = None; n = 0
     for ns in (0, 5, 999999999, (1 << 64) - 1):
         def ext(ins, args):
             cal = ins.callee
             if cal == 'fmtime':
                 raise Called()
+            if cal == 'close':
+                raise Skipped()          # the descriptor is given up before any fmtime: this file is left alone
             return (0,)
         R = RG.Region(P, extern=ext)
         R.discover = []
@@ -264,6 +288,8 @@ def touch_disk_nsec_rule(P, rep, rid):
             got = False
         except Called:
             got = True
+        except Skipped:
+            got = False
         except RG.Unsupported as e:
             raise AnalysisBroken('cannot interpret state_touch after fstat: %s' % e)
         n += 1
